@@ -533,7 +533,7 @@ func (r *FnRun) loadTypedNoAssume(t types.Type, path string, rd func(path string
 		// whatever a pointer or channel in memory refers to was allocated
 		// before now (first mention wins: at function entry that is top0)
 		switch under(t).(type) {
-		case *types.Pointer, *types.Chan, *types.Interface:
+		case *types.Pointer, *types.Chan, *types.Interface, *types.Map:
 			if tm.Sort == SInt && !r.cur.ranged["sb:"+tm.S] {
 				r.cur.ranged["sb:"+tm.S] = true
 				r.assume(Le(tm, r.cur.top))
